@@ -227,6 +227,9 @@ def _fitstable(r):
             t[name] = np.array(v) * u.Unit(unit)
         else:
             t[name] = v
+    if r.get('plain'):
+        from astropy.table import Table
+        t = Table(t)          # unit-carrying Columns instead of Quantities
     return t
 
 
